@@ -263,6 +263,10 @@ class GeoMachine(Machine):
         k['weights'] = w
         k['nops'] = rng.choice((1, 2, 3, 5, 8, 12, 25))
         k['bufsize'] = rng.choice((16, 8192, None))
+        # "each optionally followed by a file round trip": in some runs every high-level edit is
+        # followed by a write + read into a fresh object, which must be a consistent geometry
+        # with the same name lists (the working geometry is not replaced)
+        k['roundtrip_each'] = rng.random() < 0.25
         return k
 
     @classmethod
@@ -439,7 +443,43 @@ class GeoMachine(Machine):
                 raise Violation('J7', 'delete_orphans left orphan nodes')
             else:
                 ctx.probes['J7_not_asserted_pre_invalid'] += 1
+        if ctx.knobs.get('roundtrip_each') and high and kind != 'PERSIST' and self.geo is not None:
+            self.roundtrip_probe(kind)
         self.digest_state(kind)
+
+    def roundtrip_probe(self, kind):
+        geo, ctx = self.geo, self.ctx
+        if not self.layers_fresh or not self.index_fresh or self.tie_taint or \
+                mesh_problems(geo) or geo.num_columns > 200:
+            return
+        for c in geo.columnlist:
+            for l in geo.layerlist:
+                if 0.0 < abs(c.surface - l.bottom) < 0.0101:
+                    return
+        fs = ctx.fs
+        fs.begin_op(2000000)
+        path = ROOT + 'probe_geo.dat'
+        names = my_name_lists(geo)
+        self.call(lambda: geo.write(path), 'write')
+        geo.filename = ''
+        g2 = self.call(lambda: self.mg.mulgrid(path), 'read')
+        fs.files.pop('probe_geo.dat', None)
+        what = 'file round trip after %s' % kind
+        if (g2.block_name_list, g2.block_connection_name_list) != tuple(names):
+            raise Violation('J6.persist', '%s: name lists differ (%d vs %d blocks, %d vs %d '
+                            'connections)' % (what, len(g2.block_name_list), len(names[0]),
+                                              len(g2.block_connection_name_list), len(names[1])))
+        if (g2.num_columns, g2.num_nodes, g2.num_connections) != \
+                (geo.num_columns, geo.num_nodes, geo.num_connections):
+            raise Violation('J6.persist', '%s: %d columns, %d nodes, %d connections read back, '
+                            'written %d, %d, %d' % (what, g2.num_columns, g2.num_nodes,
+                                                    g2.num_connections, geo.num_columns,
+                                                    geo.num_nodes, geo.num_connections))
+        check_core(g2, True)
+        probs = mesh_problems(g2)
+        if probs:
+            raise Violation('J7', '%s left an invalid mesh: %s' % (what, '; '.join(probs)))
+        ctx.probes['roundtrip_after_high_level_op'] += 1
 
     def j7_key(self, kind, probs):
         return '-'
@@ -1050,8 +1090,10 @@ class GeoMachine(Machine):
         geo = self.geo
         ctx = self.ctx
         self.persist_pre_ok = not mesh_problems(geo)
-        if not geo.right_justified_names or not self.layers_fresh:
+        if not self.layers_fresh:
             return False
+        # (every geometry the machine builds has right-justified names; an op that creates
+        # names of the other justification is what the round trip below exposes)
         if geo.orphans or not self.persist_pre_ok:
             return False
         # the file carries two decimals: a surface within rounding distance of a layer boundary
